@@ -953,62 +953,85 @@ pub fn exec_script_class(sc: &dyn DynScenario, script: &ScriptJson, scratch: &st
             Outcome::HarnessError(e) => Err(e),
         };
     }
-    let path = scratch.join(format!("cand-{}-{:?}.json", std::process::id(), std::thread::current().id()));
-    let body = serde_json::json!({"scenario": sc.name(), "cfg": script.cfg, "actions": script.actions});
-    std::fs::write(&path, serde_json::to_vec(&body).unwrap()).map_err(|e| e.to_string())?;
-    let exe = std::env::current_exe().map_err(|e| e.to_string())?;
-    let mut cmd = Command::new(exe);
-    cmd.arg("replay-inner").arg(&path).env("RUST_BACKTRACE", "0").stdin(Stdio::null()).stdout(Stdio::piped()).stderr(Stdio::piped());
-    set_child_limits(&mut cmd);
-    let mut child = cmd.spawn().map_err(|e| e.to_string())?;
-    // simple timeout loop
-    let start = std::time::Instant::now();
-    let mut timed_out = false;
-    loop {
-        match child.try_wait() {
-            Ok(Some(_)) => break,
-            Ok(None) => {
-                if start.elapsed().as_secs() > HANG_BUDGET_S {
-                    timed_out = true;
-                    let _ = child.kill();
-                    break;
+    // Isolated execution. When the child dies inside action k of a resumable scenario the run is
+    // resumed after that action (same protocol as the batch supervisor), so that every violation of
+    // the script is collected, not only those before the first abort.
+    let mut all: Vec<Violation> = vec![];
+    let mut from = 0usize;
+    for _round in 0..40 {
+        let path = scratch.join(format!("cand-{}-{:?}.json", std::process::id(), std::thread::current().id()));
+        let body = serde_json::json!({"scenario": sc.name(), "cfg": script.cfg, "actions": script.actions, "from": from});
+        std::fs::write(&path, serde_json::to_vec(&body).unwrap()).map_err(|e| e.to_string())?;
+        let exe = std::env::current_exe().map_err(|e| e.to_string())?;
+        let mut cmd = Command::new(exe);
+        cmd.arg("replay-inner").arg(&path).env("RUST_BACKTRACE", "0").stdin(Stdio::null()).stdout(Stdio::piped()).stderr(Stdio::piped());
+        set_child_limits(&mut cmd);
+        let mut child = cmd.spawn().map_err(|e| e.to_string())?;
+        let start = std::time::Instant::now();
+        let mut timed_out = false;
+        loop {
+            match child.try_wait() {
+                Ok(Some(_)) => break,
+                Ok(None) => {
+                    if start.elapsed().as_secs() > HANG_BUDGET_S {
+                        timed_out = true;
+                        let _ = child.kill();
+                        break;
+                    }
+                    std::thread::sleep(std::time::Duration::from_millis(2));
                 }
-                std::thread::sleep(std::time::Duration::from_millis(2));
-            }
-            Err(e) => return Err(e.to_string()),
-        }
-    }
-    let out = child.wait_with_output().map_err(|e| e.to_string())?;
-    let _ = std::fs::remove_file(&path);
-    let so = String::from_utf8_lossy(&out.stdout);
-    let se = String::from_utf8_lossy(&out.stderr);
-    let mut all = vec![];
-    let mut done = false;
-    for l in so.lines() {
-        if let Some(js) = l.strip_prefix("V ") {
-            if let Ok(v) = serde_json::from_str::<Violation>(js) {
-                all.push(v);
+                Err(e) => return Err(e.to_string()),
             }
         }
-        if let Some(e) = l.strip_prefix("H ") {
-            return Err(e.to_string());
+        let out = child.wait_with_output().map_err(|e| e.to_string())?;
+        let _ = std::fs::remove_file(&path);
+        let so = String::from_utf8_lossy(&out.stdout);
+        let se = String::from_utf8_lossy(&out.stderr);
+        let mut done = false;
+        let mut action: Option<usize> = None;
+        for l in so.lines() {
+            if let Some(js) = l.strip_prefix("V ") {
+                // "V <run> <json>" (recorded while running) or "V <json>"
+                let js = js.trim_start();
+                let js = if js.starts_with('{') { js } else { js.split_once(' ').map(|x| x.1).unwrap_or("") };
+                if let Ok(v) = serde_json::from_str::<Violation>(js) {
+                    if !all.iter().any(|x| x.invariant == v.invariant) {
+                        all.push(v);
+                    }
+                }
+            }
+            if let Some(e) = l.strip_prefix("H ") {
+                return Err(e.to_string());
+            }
+            if let Some(k) = l.strip_prefix("P ") {
+                action = k.trim().parse().ok();
+            }
+            if l == "DONE" {
+                done = true;
+            }
         }
-        if l == "DONE" {
-            done = true;
+        if done {
+            return Ok(all);
         }
-    }
-    if !done {
-        all.push(classify_death(&out.status, &se, timed_out));
+        let v = classify_death(&out.status, &se, timed_out);
+        if !all.iter().any(|x| x.invariant == v.invariant) {
+            all.push(v);
+        }
+        match action {
+            Some(k) if sc.resumable() && k + 1 < script.actions.len() => from = k + 1,
+            _ => return Ok(all),
+        }
     }
     Ok(all)
 }
 
-pub fn replay_inner_main(sc: &dyn DynScenario, script: &ScriptJson) {
+pub fn replay_inner_main(sc: &dyn DynScenario, script: &ScriptJson, from: usize) {
     let mut st = RunStats::default();
-    let o = guarded(|| sc.exec_json(script, &mut st));
-    for v in st.extra.drain(..) {
-        println!("V {}", serde_json::to_string(&v).unwrap());
-    }
+    CHILD_RUN.store(0, Ordering::Relaxed);
+    CHILD_ACTION_BASE.store(from as u64, Ordering::Relaxed);
+    let part = ScriptJson { cfg: script.cfg.clone(), actions: script.actions[from.min(script.actions.len())..].to_vec() };
+    let o = guarded(|| sc.exec_json(&part, &mut st));
+    st.extra.clear(); // already printed by RunStats::record (child mode)
     match o {
         Outcome::Ok => {}
         Outcome::Violation(v) => println!("V {}", serde_json::to_string(&v).unwrap()),
